@@ -288,7 +288,7 @@ class ExpPoly(eqx.Module):
 
 def run_glv(case):
     ns, T, deg = case["ns"], case["Tmax"], case["deg"]
-    names = [f"s{i}" for i in range(ns)]
+    names = ["N1", "N10", "N"][:ns]  # valid population names; some are substrings of others
     expo = nets.monomials(1, deg)
     M = len(expo)
     ts = np.array([0.1, 0.45, 0.9, 1.3][: case["grid"]])
@@ -327,6 +327,13 @@ def run_glv(case):
                 carry = pm["carrying_capacity"] * sum(U[n] for n in order)
                 exact = dlog + T * (-pm["growth_rate"] - inter_sum + carry)
                 err = np.abs(got - exact) / (1 + np.abs(exact))
+                if not np.any(err > 1e-9) and combo in combos[:2]:
+                    # the same loss object evaluated again, eagerly (no cached trace): must give the same residual
+                    got_e = np.array([np.asarray(dl.evaluate(jnp.asarray(t), u_dict, pd)).reshape(-1)[0] for t in ts[:2]])
+                    if np.any(np.abs(got_e - exact[:2]) > 1e-9 * (1 + np.abs(exact[:2]))):
+                        viol.append(V("GeneralizedLotkaVolterra", "repeated_eager_evaluation_differs_from_log_form_equation",
+                                      f"main={key_main} others={keys_other} layout={case['layout']} field {combo}: got {got_e.tolist()} expected {exact[:2].tolist()}"))
+                        return viol
                 if np.any(err > 1e-9):
                     viol.append(V("GeneralizedLotkaVolterra", "residual_differs_from_log_form_equation",
                                   f"main={key_main} others={keys_other} layout={case['layout']} Tmax={T} field {combo}: got {got.tolist()} expected {exact.tolist()}"))
